@@ -292,6 +292,14 @@ func (s *sess) catalogue(donor []byte, want map[string]bool) []mut {
 		}
 		// the protected body under a DTLS 1.2-style header that claims the sender's real (non-zero) epoch
 		field("legacy-header,type=23,epoch=N", func([]byte) []byte { return hdr12(23, dtls12, s.sndEpoch, l.Seq, nil, body) })
+		// the content types DTLS 1.3 still accepts in DTLSPlaintext framing (alert, handshake, ACK), naming the
+		// real epoch, at the genuine and at a far-ahead sequence number (nothing of it may stick, not even in
+		// the anti-replay state: the genuine record that follows must be delivered)
+		for _, t := range []byte{21, 22, 26} {
+			t := t
+			field(fmt.Sprintf("legacy-header,type=%d,epoch=N", t), func([]byte) []byte { return hdr12(t, dtls12, s.sndEpoch, l.Seq, nil, body) })
+			field(fmt.Sprintf("legacy-header,type=%d,epoch=N,seq+100000", t), func([]byte) []byte { return hdr12(t, dtls12, s.sndEpoch, l.Seq+100000, nil, body) })
+		}
 		if len(h.CID) > 0 {
 			field("legacy-header,type=25,epoch=N", func([]byte) []byte { return hdr12(25, dtls12, s.sndEpoch, l.Seq, h.CID, body) })
 		}
